@@ -17,6 +17,7 @@ import TantivyModel.Proofs.PositionsAfterSeeks
 import TantivyModel.Proofs.FieldSerializer
 import TantivyModel.Proofs.VInt32Source
 import TantivyModel.Proofs.BlockCursorSeek
+import TantivyModel.Proofs.RemapPermuted
 /-!
 # C07 — The inverted index records exactly the terms, documents, frequencies, positions
 
@@ -263,6 +264,38 @@ theorem C07_recorder_remap (o : RecOpt) (c : Corpus) (G : Recorder.GoodCorpus c)
   obtain ⟨r, h1, _, h3, h4, h5⟩ := Recorder.remapped_pipeline o _ newId hne
     (Recorder.termOK_of_goodCorpus c G t) hinj hbelow
   exact ⟨r, by rw [Recorder.indexCorpus_table, h1], h3, h4, h5⟩
+
+/-- **Index sorting = inverting the re-ordered corpus.**  With `doc_id_map` a permutation of the
+segment's documents (`newId` / `oldId` are `DocIdMapping`'s two arrays, inverse to each other),
+the remapped branch of `Recorder::serialize` — per term: remap every doc id, sort by the new id,
+serialize — produces, read back, exactly `invert` of the corpus in its new document order: the
+same terms, and for every term the postings (docs, term frequencies, positions as visible under
+the record option) of the permuted corpus. -/
+theorem C07_remap_is_invert_of_permuted (o : RecOpt) (c : Corpus) (G : Recorder.GoodCorpus c)
+    (newId oldId : Nat → Nat)
+    (h1 : ∀ i, i < c.length → newId i < c.length ∧ oldId (newId i) = i)
+    (h2 : ∀ j, j < c.length → oldId j < c.length ∧ newId (oldId j) = j) :
+    (invert (Recorder.permuted c oldId)).terms.map (·.1) = (invert c).terms.map (·.1) ∧
+    ∀ e ∈ (invert (Recorder.permuted c oldId)).terms, ∃ r,
+      (Recorder.indexCorpus o c).table e.1 = some r ∧
+      Recorder.readBack o (Recorder.serializeTermRemapped o r newId) = some (e.2.map (project o)) := by
+  have hmap : ∀ c' : Corpus, (invert c').terms.map (·.1) = termsOf Gen.Postings.POSITION_GAP c' := by
+    intro c'; simp [invert, invertWith, Function.comp_def]
+  have hterms := Recorder.termsOf_permuted Gen.Postings.POSITION_GAP c newId oldId h1 h2
+  refine ⟨by rw [hmap, hmap, hterms], ?_⟩
+  intro e he
+  simp only [invert, invertWith, List.mem_map] at he
+  obtain ⟨t, ht, rfl⟩ := he
+  rw [hterms] at ht
+  have hspec := postingsFrom_spec Gen.Postings.POSITION_GAP t 0 c
+  obtain ⟨r, hr, hback, _, _⟩ := C07_recorder_remap o c G t (by rw [hmap]; exact ht) newId
+    (Recorder.remap_nodup _ t c newId oldId h1)
+    (fun p hp => by
+      have := (hspec.2 p hp).2.1
+      have := (h1 p.doc (by omega)).1
+      have := G.docs
+      omega)
+  exact ⟨r, hr, by rw [hback, Recorder.remap_eq_permuted _ t c newId oldId h1 h2]⟩
 
 /-! ### JSON fields: per-path positions -/
 
@@ -620,6 +653,9 @@ example : JsonPositions.occs 1 [⟨[97], true, [⟨[1], 0, 1⟩, ⟨[2], 1, 1⟩
     ⟨[97], false, [⟨[9], 0, 1⟩]⟩, ⟨[97], true, [⟨[1], 0, 1⟩]⟩] =
     [⟨[97], true, [1], 0⟩, ⟨[97], true, [2], 1⟩, ⟨[98], true, [3], 0⟩, ⟨[97], false, [9], 0⟩, ⟨[97], true, [1], 3⟩] := by
   decide
+example : Recorder.permuted [[[⟨[97], 0, 1⟩]], [], [[⟨[98], 0, 1⟩]]] (fun j => 2 - j) =
+    [[[⟨[98], 0, 1⟩]], [], [[⟨[97], 0, 1⟩]]] ∧
+    (∀ i, i < 3 → (fun d => 2 - d) i < 3 ∧ (fun j => 2 - j) ((fun d => 2 - d) i) = i) := by decide
 example : Recorder.sortPostings ([⟨0, 1, [0]⟩, ⟨1, 2, [0, 2]⟩, ⟨2, 1, [4]⟩].map (Recorder.remapPosting (fun d => 2 - d))) =
     [⟨0, 1, [4]⟩, ⟨1, 2, [0, 2]⟩, ⟨2, 1, [0]⟩] := by decide
 example : BlockPostings.seekAll cfg (BlockPostings.open cfg .basic .basic 3 [129, 132, 132]) [0, 2, 9, 10] =
